@@ -212,3 +212,61 @@ Proof.
   - specialize (IH H). destruct x; cbn; try reflexivity; now rewrite IH.
 Qed.
 
+
+(* ---- the shape rules as lemmas ------------------------------------------------------------------
+   The result depends on the document only through the non-null values stored
+   under the JSON names of the schema: unknown members and null members are
+   ignored (whatever their value / name), names are compared exactly. *)
+Lemma decode_fields_ext : forall fs cur ms ms',
+  (forall gn jn ft, In (gn, jn, ft) fs -> nonnull_occurrences jn ms = nonnull_occurrences jn ms') ->
+  decode_fields fs cur ms = decode_fields fs cur ms'.
+Proof.
+  induction fs as [|[[gn jn] ft] r IH]; intros cur ms ms' H; [reflexivity|].
+  cbn [decode_fields]. rewrite (H gn jn ft (or_introl eq_refl)).
+  rewrite (IH cur ms ms'); [reflexivity|]. intros gn' jn' ft' Hin. eapply H. right. exact Hin.
+Qed.
+
+Lemma nonnull_occurrences_cons_other : forall k k' v ms, String.eqb k k' = false ->
+  nonnull_occurrences k ((k', v) :: ms) = nonnull_occurrences k ms.
+Proof. intros. unfold nonnull_occurrences, occurrences. cbn. now rewrite H. Qed.
+
+Lemma nonnull_occurrences_cons_null : forall k k' ms,
+  nonnull_occurrences k ((k', JNull) :: ms) = nonnull_occurrences k ms.
+Proof. intros. unfold nonnull_occurrences, occurrences. cbn. destruct (String.eqb k k'); reflexivity. Qed.
+
+(* a member whose name is not a JSON name of the schema (this includes names that
+   differ only in case) does not matter *)
+Lemma decode_unknown_member_ignored : forall fs cur k v ms,
+  (forall gn jn ft, In (gn, jn, ft) fs -> String.eqb jn k = false) ->
+  decode (TStruct fs) cur (JObj ((k, v) :: ms)) = decode (TStruct fs) cur (JObj ms).
+Proof.
+  intros fs cur k v ms H. rewrite !decode_struct_obj.
+  rewrite (decode_fields_ext fs cur ((k, v) :: ms) ms); [reflexivity|].
+  intros gn jn ft Hin. apply nonnull_occurrences_cons_other. eapply H; eauto.
+Qed.
+
+(* a null member does not matter, whatever its name *)
+Lemma decode_null_member_ignored : forall fs cur k ms,
+  decode (TStruct fs) cur (JObj ((k, JNull) :: ms)) = decode (TStruct fs) cur (JObj ms).
+Proof.
+  intros fs cur k ms. rewrite !decode_struct_obj.
+  rewrite (decode_fields_ext fs cur ((k, JNull) :: ms) ms); [reflexivity|].
+  intros gn jn ft Hin. apply nonnull_occurrences_cons_null.
+Qed.
+
+(* null in place of a struct: the value is left as it is, without error (top level too) *)
+Lemma decode_null_struct : forall fs cur, decode (TStruct fs) cur JNull = Ok cur.
+Proof. reflexivity. Qed.
+
+(* integers: integer literal inside the range of the type, nothing else *)
+Lemma decode_int_spec : forall lo hi cur j v, decode (TInt lo hi) cur j = Ok v ->
+  exists z, j = JNum z /\ v = GInt z /\ (lo <= z <= hi)%Z.
+Proof.
+  intros lo hi cur j v H. destruct j; cbn in H; try discriminate.
+  destruct ((lo <=? z) && (z <=? hi))%Z eqn:E; [|discriminate].
+  apply andb_prop in E as [E1 E2]. apply Z.leb_le in E1, E2. inversion H. exists z. repeat split; lia.
+Qed.
+
+(* json.RawMessage keeps the value *)
+Lemma decode_raw_spec : forall cur j, decode TRaw cur j = Ok (GRaw (Some j)).
+Proof. reflexivity. Qed.
